@@ -97,7 +97,7 @@ func (it *MapIter) Value() reflect.Value { return it.m.MapIndex(it.keys[it.i]) }
 
 //go:norace
 func noteIter(permuted bool) {
-	if !s.active {
+	if !mine() {
 		return
 	}
 	s.mapIters++
@@ -110,7 +110,7 @@ func noteIter(permuted bool) {
 //
 //go:norace
 func permutation(n int) []int {
-	if !s.active {
+	if !mine() {
 		return nil
 	}
 	mode := s.cfg.MapMode
